@@ -1,0 +1,6 @@
+//go:build verif
+
+package filesystem
+
+// VerifFirstSeqnum exposes the seqnum given to the first key of a key ring (verification hook, add-only).
+const VerifFirstSeqnum = firstSeqnum
